@@ -621,6 +621,28 @@ def check_model(desc, ctx):
     if not allclose(got_p, exp_p, rel=ru.tol_for(sp, tp)):
         raise Violation(f"ModelIsotherm.pressure_at(..., {_kw_p(prep)}) = {got_p.tolist()} != {exp_p.tolist()}",
                         tag="model_pressure_value")
+    # pressure_at with the loading supplied in the requested loading / material representation
+    if lrep is not None or mrep is not None:
+        delta = 1e-9 + 4 * ru.tol_for(sl, tl, sm, tm, base=0)
+        try:
+            got_i = np.asarray(iso.pressure_at(exp_o, **_kw_l(lrep), **_kw_m(mrep)), dtype=float)
+        except pygaps.utilities.exceptions.ParameterError:
+            # a fractional loading without a named material basis is refused (never misread): accepted
+            if mrep is None and (_frac(tl) or _frac(sl)):
+                ctx.label("model_input_loading", "refused_fraction_without_material")
+                got_i = None
+            else:
+                raise
+        with np.errstate(all="ignore"):
+            lo_p = np.asarray(model.pressure(ql * (1 - delta)), dtype=float)
+            hi_p = np.asarray(model.pressure(ql * (1 + delta)), dtype=float)
+        hi_p = np.where(np.isfinite(hi_p) & (hi_p >= bp), hi_p, np.inf)
+        ok = got_i is None or ((got_i >= lo_p * (1 - 1e-9) - 1e-300) & (got_i <= hi_p * (1 + 1e-9) + 1e-300))
+        if got_i is not None:
+            ctx.label("model_input_loading", "interpreted")
+        if not bool(np.all(ok)):
+            raise Violation(f"ModelIsotherm.pressure_at(loading as {tl} per {tm}, stored {sl} per {sm}) = {got_i.tolist()} "
+                            f"!= bare model at the stored-unit loadings {bp.tolist()}", tag="model_input_loading")
     # whole-curve accessors: pressure() grid and loading() on it
     gp = np.asarray(iso.pressure(points=7, **_kw_p(prep)), dtype=float)
     exp_gp = np.array([ru.conv_pressure(v, sp, tp, fluid, T) for v in np.linspace(0.0, 10.0, 7)])
